@@ -518,6 +518,22 @@ def run(ctx, repo):
                         tp[nm] -= k_
         tres = [('py', nm, k) for nm, k in sorted(tp.items()) if k > 0 and (pq, 'py', nm) not in ALLOW_TRUTHY] + \
                [('js', nm, k) for nm, k in sorted(tj.items()) if k > 0 and (pq, 'js', nm) not in ALLOW_TRUTHY]
+        # only tests on what the caller passes in are compared as findings: how often a LOCAL is tested for truth changes with every
+        # harmless restructuring (guard clauses, merged conditions, a helper extracted), a test on a parameter is input validation
+        pparams_ = {jsast.camel(a.arg) for a in pf.args.args + pf.args.kwonlyargs}
+        jparams_ = {x['name'] for prm in jfun[mod][jq].get('params', []) for x in jsast.jwalk(prm) if x.get('type') == 'Identifier'}
+        def _is_input(t_):
+            root = t_[1].split('.')[0].split('[')[0]
+            if (root in pparams_) if t_[0] == 'py' else (root in jparams_):
+                return True
+            # a local that both sides have, tested on one side and never on the other: a whole defensive branch is missing
+            other = jt if t_[0] == 'py' else pt
+            return t_[1] in pnames and t_[1] in jnames and other.get(t_[1], 0) == 0
+        noted = [t_ for t_ in tres if not _is_input(t_)]
+        tres = [t_ for t_ in tres if t_ not in noted]
+        for side, nm, k in noted:
+            ctx.info('%s <-> %s: the local `%s` is tested for truth %d time(s) more in %s (not compared: a local, not an input)' % (
+                pq, jq, nm, k, 'Python' if side == 'py' else 'JavaScript'))
         for side, nm, k in tres:
             ctx.finding('R3', '%s::%s::emptiness test of %s only in %s' % (JS[mod], jq, nm, 'Python' if side == 'py' else 'JavaScript'),
                         JS[mod], jsast.line(jfun[mod][jq]),
